@@ -55,6 +55,11 @@ CLAIMED = {
                   'Tied by comparing function_t::changes/depends of random programs with the extracted summaries, and by 16 side-effect-free contexts x 31 write forms with side-effect-free twins on the real type checker.',
              design='4/C11',
              note='Trusted: hand model Effects.v (tied by summary correspondence), abstract-program renderer, extraction. Partial: recursion is excluded by the theorem\'s scoping hypothesis; that each context consults the write set is shown by the matrix, not by proof.'),
+ 'C13': dict(technique='Coq proof (on top of the reads-completeness theorem of the effects model) that the checker\'s computability test admits no transitive dependence on a non-computable symbol; chain x context matrix on the real checker',
+             text='C13_ctc_sound: if every symbol in the model of collect_possible_reads is computable, and every initialiser of a computable variable passed the same test, then no dependence chain of any length (through initialisers and called function bodies) reaches a non-computable variable; '
+                  'tied by 13 compile-time contexts x chains of length 0-4 over 7 link kinds ending in a mutable variable / constant / literal, compared with the extracted model, plus free, bound and partially instantiated process parameters in array sizes.',
+             design='4/C13',
+             note='Trusted: hand models Effects.v/Compute.v, chain renderer, extraction. The restricted-parameter propagation is decided by the direct oracle only; the computable set is a parameter of the theorem.'),
 }
 NOT_YET = 'check not built yet in this revision (work in progress, see DESIGN.md section 7 staging)'
 m = dict(version=1, setup_cmd='tools/setup.sh',
